@@ -3,7 +3,11 @@
      prqlc-parser/src/parser/mod.rs     parse_lr_to_pr: map_span (token indices -> byte offsets of token spans)
      prqlc-parser/src/parser/expr.rs    interpolation(): interpolation::parse(string, span + 2)
      prqlc-parser/src/parser/interpolation.rs  span_base.start + e.span().start
-     prqlc/src/error_message.rs         composed / compose_location (ariadne::Source, CHARACTER offsets)
+     prqlc/src/error_message.rs         composed / compose_location (ariadne::Source, CHARACTER offsets;
+                                        a span whose source is not in the tree is removed: 7cb9d46)
+     prqlc/src/lib.rs                   SourceTree::single / new / From<S>, prql_to_tokens (errors composed: d650e1d)
+     prqlc/src/parser.rs                parse_source (lexer errors carry the id of the file)
+     prqlc/src/semantic/resolver/functions.rs  fold_function (error of a std body moved to the call site: 7cb9d46)
      ariadne-0.5.1/src/source.rs        Source::from, get_offset_line
      prqlc-parser/src/error.rs          Display for Reason
    Sources are lists of code points; offsets are nat.  Executable definitions only. *)
@@ -113,26 +117,57 @@ Definition compose_location (s : source) (sp : span) : option location :=
   | None => None
   end.
 
-(* one iteration of ErrorMessages::composed: no span / unknown source id -> message left alone
-   (Ret None); otherwise location, and `assert!(e.location.is_some(), ..)` *)
-Definition composed_one (tree : list (nat * source)) (sp : option span) : out (option location) :=
+(* one iteration of ErrorMessages::composed, as (span', location) of the message afterwards:
+     no span                      -> message left alone;
+     source id not in the tree    -> `e.span = None; continue` (the span cannot be interpreted by the caller);
+     otherwise location := compose_location, and `assert!(e.location.is_some(), ..)`; then compose_display builds
+     an ariadne Label over span.start..span.end, which asserts start <= end.
+   (`cache.fetch` cannot fail for a tree built by SourceTree::single/new: every path of source_ids is a key of sources.) *)
+Definition composed_one (tree : list (nat * source)) (sp : option span) : out (option span * option location) :=
   match sp with
-  | None => Ret None
+  | None => Ret (None, None)
   | Some sp =>
       match find (fun p => Nat.eqb (fst p) (sp_src sp)) tree with
-      | None => Ret None
+      | None => Ret (None, None)
       | Some (_, s) =>
           match compose_location s sp with
-          | Some l => Ret (Some l)
+          | Some l =>
+              (* compose_display: ariadne-0.5.1 Label::new asserts `span.start() <= span.end()` ("Label start is after its end") *)
+              if Nat.ltb (sp_end sp) (sp_start sp) then Panic else Ret (Some sp, Some l)
           | None => Panic
           end
       end
   end.
 
-(* SourceTree::new: ids are index+1 *)
+(* SourceTree::new: ids are index+1 (distinct paths assumed: `sources` is keyed by path) *)
 Fixpoint number_from (k : nat) (srcs : list source) : list (nat * source) :=
   match srcs with [] => [] | s :: t => (k, s) :: number_from (S k) t end.
 Definition source_tree (srcs : list source) : list (nat * source) := number_from 1 srcs.
+(* SourceTree::single / From<S>: the one file has id 1 *)
+Definition source_tree_single (s : source) : list (nat * source) := [(1, s)].
+(* prql_to_tokens: `sources.source_ids.keys().copied().min().unwrap_or(1)` *)
+Definition min_source_id (tree : list (nat * source)) : nat :=
+  match map fst tree with [] => 1 | k :: ks => fold_left Nat.min ks k end.
+
+(* a lexer error as the caller sees it: convert_lexer_error with the id of the file, then `composed` against a
+   tree in which that id names the file (parse_source + prql_to_pl_tree's composed; prql_to_tokens).
+   Result: (span', location, found). *)
+Definition lexer_error_reported (tree : list (nat * source)) (s : source) (bs be sid : nat)
+  : out (option span * option location * source) :=
+  bind (convert_lexer_error s bs be sid) (fun p =>
+  bind (composed_one tree (Some (fst p))) (fun r => Ret (r, snd p))).
+
+Definition prql_to_tokens_error (s : source) (bs be : nat) : out (option span * option location * source) :=
+  let tree := source_tree_single s in
+  lexer_error_reported tree s bs be (min_source_id tree).
+
+(* Resolver::fold_function: an error of the inner fold whose span is in std.prql (source id 0) is given the span of
+   the call when that is in the user's source (`e.with_span(span)` overwrites) *)
+Definition std_source_id : nat := 0.
+Definition respan_std (err_span call_span : option span) : option span :=
+  let in_std := match err_span with Some s => Nat.eqb (sp_src s) std_source_id | None => false end in
+  let call_in_user_source := match call_span with Some s => negb (Nat.eqb (sp_src s) std_source_id) | None => false end in
+  if in_std && call_in_user_source then call_span else err_span.
 
 (* the position of a character offset, as a specification: offset of the line start + column *)
 Fixpoint line_start (lens : list nat) (l : nat) : nat :=
@@ -144,13 +179,13 @@ Fixpoint line_start (lens : list nat) (l : nat) : nat :=
 
 (* ---- what a consumer sees for a parser error: the byte span read as character offsets ---- *)
 Definition parser_error_location (s : source) (toks : list (nat * nat)) (i j : nat) : out (option location) :=
-  composed_one [(1, s)] (Some (map_span toks i j 1)).
+  bind (composed_one [(1, s)] (Some (map_span toks i j 1))) (fun r => Ret (snd r)).
 
 (* ---- what it should be: the location of the characters at those byte offsets ---- *)
 Definition byte_span_location (s : source) (sp : span) : out (option location) :=
   bind (char_of_byte s (sp_start sp)) (fun cs =>
   bind (char_of_byte s (sp_end sp)) (fun ce =>
-  composed_one [(sp_src sp, s)] (Some (Span cs ce (sp_src sp))))).
+  bind (composed_one [(sp_src sp, s)] (Some (Span cs ce (sp_src sp)))) (fun r => Ret (snd r)))).
 
 (* all characters before character offset k are ASCII *)
 Definition ascii_before (s : source) (k : nat) : bool := forallb is_ascii (firstn k s).
